@@ -367,15 +367,21 @@ func c03Run(ctx *core.Ctx) {
 	for _, spec := range []struct{ k, maxN int }{{2, n2}, {3, n3}} {
 		for n := 5; n <= spec.maxN; n++ {
 			forEachSeq(n, spec.k, func(seq []int) {
-				if !ctx.Mine() {
-					return
-				}
-				c := sortCase{Layer: "L2", Frame: intFrame(seq), Orders: ord}
-				exec(c, true)
-				if n > 12 {
-					ctx.Outcome("L2/quicksort-regime")
-				} else {
-					ctx.Outcome("L2/insertion-regime")
+				// every index shape for the lengths around the insertion-sort cut-off, one rotating shape elsewhere
+				for shape := 0; shape < model.NShapes; shape++ {
+					if (n < 11 || n > 15) && shape != (n+seq[0]+seq[n-1])%model.NShapes {
+						continue
+					}
+					if !ctx.Mine() {
+						continue
+					}
+					c := sortCase{Layer: "L2", Frame: intFrame(seq), Orders: ord, Shape: shape}
+					exec(c, true)
+					if n > 12 {
+						ctx.Outcome("L2/quicksort-regime")
+					} else {
+						ctx.Outcome("L2/insertion-regime")
+					}
 				}
 			})
 		}
@@ -389,9 +395,15 @@ func c03Run(ctx *core.Ctx) {
 		for pi, base := range c03Patterns(n) {
 			devVals := []int{-1, n / 2, n + 1}
 			// 0 deviations
-			if ctx.Mine() {
-				exec(sortCase{Layer: "L2n", Frame: intFrame(base), Orders: ord}, true)
-				ctx.Outcome("L2/ninther")
+			for shape := 0; shape < model.NShapes; shape++ {
+				if ctx.Mine() {
+					exec(sortCase{Layer: "L2n", Frame: intFrame(base), Orders: ord, Shape: shape}, true)
+					ctx.Outcome("L2/ninther")
+				}
+				// the same keys requested in descending order (a frame that is already sorted the other way round)
+				if ctx.Mine() {
+					exec(sortCase{Layer: "L2n", Frame: intFrame(base), Orders: []ordSpec{{Col: "k", Reverse: true}}, Shape: shape}, true)
+				}
 			}
 			step := 1
 			if ctx.Quick() {
@@ -571,7 +583,7 @@ func init() {
 		Level: "model_checking",
 		Rule: "case = (frame cells, index shape, order list[, seam entry]) enumerated exhaustively per layer " +
 			"(L1: all frames n<=N over per-type 3-value+null alphabets x {0,1} second key x all 40 order lists x 5 index shapes; " +
-			"L2: all int sequences over {0,1} and {0,1,2} up to the stated lengths, ninther-size base patterns with all <=2 point deviations; " +
+			"L2: all int sequences over {0,1} and {0,1,2} up to the stated lengths (all 5 index shapes for lengths 11..15, one rotating shape otherwise), ninther-size base patterns on all shapes in both directions with all <=2 point deviations; " +
 			"L3: real quickSort/heapSort entered through the seam on all small sequences/permutations and sub-ranges, plus adversarial inputs). " +
 			"Non-trivial = the keys hold at least two distinct values (L1) / length >= 2 (others); distinct by enumeration index.",
 		Assumptions: []string{
